@@ -32,7 +32,16 @@ func permuteDoc(r *rng, d docSpec) docSpec {
 	for _, rs := range d.included {
 		p.included = append(p.included, permRes(rs))
 	}
-	shuffle(r, p.included)
+	// the order of included resources with distinct IDs is irrelevant (equal IDs keep their order)
+	seenID, distinct := map[string]bool{}, true
+	for _, rs := range p.included {
+		id, _ := rs.ops[0].val.(string)
+		distinct = distinct && !seenID[id]
+		seenID[id] = true
+	}
+	if distinct {
+		shuffle(r, p.included)
+	}
 	p.fields = map[string][]string{}
 	for k, v := range d.fields {
 		v = append([]string{}, v...)
@@ -180,6 +189,17 @@ func runC11(c *ctx) {
 			c11Case(c, d, "corpus key collision")
 		}
 	}
+	// corpus: to-many IDs that an implementation might compare as numbers here and as text there
+	for _, wrapped := range []bool{false, true} {
+		all := allKindsSpec("alltypes", "other")
+		sc := schemaSpec{types: []typeSpec{all, {name: "other"}}, wrapped: map[string]bool{"alltypes": wrapped}}
+		for _, ids := range [][]string{{"9", "10", "1a"}, {"10", "9", "1a", "1e1", "+7", "007", "7"}, {"2", "10", "1"}, {"b", "B", "a", "10", "9"}} {
+			d := docSpec{sc: sc, dataKind: "resource", urlFrags: []string{"alltypes", "x"}, prepath: "/p",
+				data:   []resSpec{{tn: "alltypes", wrapped: wrapped, ops: []setOp{{"id", "x"}, {"many", ids}}}},
+				fields: map[string][]string{"alltypes": {"many"}}, relData: map[string][]string{"alltypes": {"many"}}}
+			c11Case(c, d, "corpus numeric-looking to-many IDs")
+		}
+	}
 	n := 200
 	if c.thorough() {
 		n = 5000
@@ -198,6 +218,17 @@ func runC11(c *ctx) {
 			if useNumeric {
 				// IDs an implementation might order as numbers
 				d.included[j].ops[0] = setOp{"id", numeric[j]}
+			}
+		}
+		if !useNumeric && c.r.chance(1, 4) {
+			// one ID under several types: distinct type/ID pairs, equal IDs
+			seen := map[string]bool{}
+			for j := range d.included {
+				k := d.included[j].tn + "/1"
+				if !seen[k] {
+					seen[k] = true
+					d.included[j].ops[0] = setOp{"id", "1"}
+				}
 			}
 		}
 		c11Case(c, d, "random")
